@@ -38,6 +38,12 @@ class Scope(object):
                     self.samples.setdefault(e["site"], []).append((path, e, list(before)))
                 before.append(e)
 
+    def _mailbox_ids_global(self):
+        if not hasattr(self, "_mig"):
+            t = self.model.repo.channel_schema().tables.get("mailboxes")
+            self._mig = t is not None and any(tuple(k) == ("id",) for k in t.unique_keys())
+        return self._mig
+
     # -- values ---------------------------------------------------------------
     def scoped_value(self, t, before, depth=0):
         """-> reason string or None"""
@@ -46,7 +52,13 @@ class Scope(object):
         if is_app_id(t):
             return "the namespace's own app id"
         if is_own_mailbox_id(t):
-            return "the Mailbox object's own id"
+            # a mailbox id names the rows of ONE app only because `mailboxes.id`
+            # is unique by itself (the row of this app, ensured when the object
+            # was created, is then the only row with that id); with a key that
+            # includes app_id the same id can belong to another app's mailbox
+            if self._mailbox_ids_global():
+                return "the Mailbox object's own id"
+            return None
         k = t[0]
         if k == "idof":
             return self.scoped_value(t[3], before, depth + 1)
